@@ -1317,3 +1317,763 @@ Proof.
 Qed.
 
 End FastInstProofs.
+
+(* ============================================================== collapsing Kronecker-delta weights *)
+(* A double sum over pairs of configurations weighted by a product of per-site weights that are either the
+   identity delta(a',a) or a unit delta(a',y) delta(a,x) reduces to the sum over the configurations of the
+   identity sites only.  Generic in the summand F, so that the rank-4 (ancilla) case can reuse it. *)
+Section Collapse.
+Variable R : CRing.
+Add Ring RR5 : (rth R).
+Infix "+" := (radd R).
+Infix "*" := (rmul R).
+Notation dl := (dl R).
+Notation cj := (rcj R).
+
+Fixpoint cfg2 (ds : list nat) (F : list nat -> list nat -> R) : R :=
+  match ds with
+  | [] => F [] []
+  | d :: r => sumn d (fun a' => sumn d (fun a => cfg2 r (fun s' s => F (a' :: s') (a :: s))))
+  end.
+
+Lemma cfg2_ext' ds : forall (F G : list nat -> list nat -> R), (forall s' s, F s' s = G s' s) -> cfg2 ds F = cfg2 ds G.
+Proof.
+  induction ds as [|d r IH]; intros F G H; cbn [cfg2]; [apply H|].
+  apply sumn_ext'. intros a'. apply sumn_ext'. intros a. apply IH. intros s' s. apply H.
+Qed.
+
+Lemma cfg2_scale_l ds : forall x (F : list nat -> list nat -> R), cfg2 ds (fun s' s => x * F s' s) = x * cfg2 ds F.
+Proof.
+  induction ds as [|d r IH]; intros x F; cbn [cfg2]; [reflexivity|].
+  rewrite <- sumn_scale_l. apply sumn_ext'. intros a'. rewrite <- sumn_scale_l. apply sumn_ext'. intros a. apply IH.
+Qed.
+
+Lemma cfg2_sumcfg ds : forall (F : list nat -> list nat -> R),
+  cfg2 ds F = sumcfg ds (fun s' => sumcfg ds (fun s => F s' s)).
+Proof.
+  induction ds as [|d r IH]; intros F; cbn [cfg2 sumcfg]; [reflexivity|].
+  apply sumn_ext'. intros a'.
+  transitivity (sumn d (fun a => sumcfg r (fun s' => sumcfg r (fun s => F (a' :: s') (a :: s))))).
+  { apply sumn_ext'. intros a. apply IH. }
+  rewrite sumn_sumcfg_exchange. reflexivity.
+Qed.
+
+Definition uw (y x : nat) : nat -> nat -> R := fun a b => dl a y * dl b x.
+Fixpoint pw (ws : list (nat -> nat -> R)) (s' s : list nat) : R :=
+  match ws, s', s with
+  | [], [], [] => r1 R
+  | w :: r, a :: s', b :: s => w a b * pw r s' s
+  | _, _, _ => r0 R
+  end.
+Definition ids (D : list nat) : list (nat -> nat -> R) := map (fun _ => dl) D.
+
+Lemma step_id p D ws (F : list nat -> list nat -> R) :
+  cfg2 (p :: D) (fun s' s => pw (dl :: ws) s' s * F s' s) =
+  sumn p (fun a => cfg2 D (fun s' s => pw ws s' s * F (a :: s') (a :: s))).
+Proof.
+  cbn [cfg2 pw]. apply sumn_ext. intros a' Ha'.
+  rewrite <- (sumn_delta_r R p a' (fun a => cfg2 D (fun s' s => pw ws s' s * F (a' :: s') (a :: s))) Ha').
+  apply sumn_ext'. intros a. rewrite <- cfg2_scale_l. apply cfg2_ext'. intros s' s. ring.
+Qed.
+
+Lemma step_unit p D ws (F : list nat -> list nat -> R) y x : (y < p)%nat -> (x < p)%nat ->
+  cfg2 (p :: D) (fun s' s => pw (uw y x :: ws) s' s * F s' s) =
+  cfg2 D (fun s' s => pw ws s' s * F (y :: s') (x :: s)).
+Proof.
+  intros Hy Hx. cbn [cfg2 pw].
+  rewrite <- (sumn_delta_l R p y (fun a' => cfg2 D (fun s' s => pw ws s' s * F (a' :: s') (x :: s))) Hy).
+  apply sumn_ext'. intros a'.
+  rewrite <- (sumn_delta_l R p x (fun a => cfg2 D (fun s' s => pw ws s' s * F (a' :: s') (a :: s))) Hx).
+  rewrite <- sumn_scale_l. apply sumn_ext'. intros a.
+  rewrite <- !cfg2_scale_l. apply cfg2_ext'. intros s' s. unfold uw. ring.
+Qed.
+
+Lemma cfg2_ids Dr : forall (F : list nat -> list nat -> R),
+  cfg2 Dr (fun s' s => pw (ids Dr) s' s * F s' s) = sumcfg Dr (fun sr => F sr sr).
+Proof.
+  induction Dr as [|p Dr IH]; intros F.
+  - cbn [cfg2 ids map pw sumcfg]. ring.
+  - cbn [ids map]. fold (ids Dr). rewrite step_id. cbn [sumcfg]. apply sumn_ext'. intros a.
+    apply (IH (fun s' s => F (a :: s') (a :: s))).
+Qed.
+
+Lemma cfg2_one_unit Dl : forall p Dr y x (F : list nat -> list nat -> R), (y < p)%nat -> (x < p)%nat ->
+  cfg2 (Dl ++ p :: Dr) (fun s' s => pw (ids Dl ++ uw y x :: ids Dr) s' s * F s' s) =
+  sumcfg Dl (fun sl => sumcfg Dr (fun sr => F (sl ++ y :: sr) (sl ++ x :: sr))).
+Proof.
+  induction Dl as [|q Dl IH]; intros p Dr y x F Hy Hx.
+  - cbn [app ids map sumcfg]. rewrite (step_unit p Dr (ids Dr) F y x Hy Hx).
+    apply (cfg2_ids Dr (fun s' s => F (y :: s') (x :: s))).
+  - cbn [app ids map]. fold (ids Dl). rewrite step_id. cbn [sumcfg]. apply sumn_ext'. intros a.
+    apply (IH p Dr y x (fun s' s => F (a :: s') (a :: s)) Hy Hx).
+Qed.
+
+Lemma cfg2_two_units Dl : forall p1 Dm p2 Dr y1 x1 y2 x2 (F : list nat -> list nat -> R),
+  (y1 < p1)%nat -> (x1 < p1)%nat -> (y2 < p2)%nat -> (x2 < p2)%nat ->
+  cfg2 (Dl ++ p1 :: Dm ++ p2 :: Dr) (fun s' s => pw (ids Dl ++ uw y1 x1 :: ids Dm ++ uw y2 x2 :: ids Dr) s' s * F s' s) =
+  sumcfg Dl (fun sl => sumcfg Dm (fun sm => sumcfg Dr (fun sr =>
+    F (sl ++ y1 :: sm ++ y2 :: sr) (sl ++ x1 :: sm ++ x2 :: sr)))).
+Proof.
+  induction Dl as [|q Dl IH]; intros p1 Dm p2 Dr y1 x1 y2 x2 F Hy1 Hx1 Hy2 Hx2.
+  - cbn [app ids map sumcfg]. fold (ids Dm). fold (ids Dr).
+    rewrite (step_unit p1 (Dm ++ p2 :: Dr) (ids Dm ++ uw y2 x2 :: ids Dr) F y1 x1 Hy1 Hx1).
+    apply (cfg2_one_unit Dm p2 Dr y2 x2 (fun s' s => F (y1 :: s') (x1 :: s)) Hy2 Hx2).
+  - cbn [app ids map]. fold (ids Dl). rewrite step_id. cbn [sumcfg]. apply sumn_ext'. intros a.
+    apply (IH p1 Dm p2 Dr y1 x1 y2 x2 (fun s' s => F (a :: s') (a :: s)) Hy1 Hx1 Hy2 Hx2).
+Qed.
+
+(* bond-dimension-one operator chains as weight lists *)
+Definition wof (x : site3 R) : nat -> nat -> R := fun a b => op3 x 0%nat a b 0%nat.
+Lemma prodop_pw ss : forall s' s, prodop R ss s' s = pw (map wof ss) s' s.
+Proof.
+  induction ss as [|x r IH]; intros s' s; destruct s' as [|a s']; destruct s as [|b s]; try reflexivity.
+  cbn [prodop map pw]. rewrite IH. reflexivity.
+Qed.
+Lemma wof_self ks : map wof (self_sand ks) = ids (kdims R ks).
+Proof. unfold self_sand, ids, kdims. rewrite !map_map. apply map_ext. intros [[p d] t]. reflexivity. Qed.
+
+(* rdm2_dense, explicit partial-trace form: calc_2site_rdm (fixed), sites i < j, any chain, any gauge:
+   rho[(x1,x2),(y1,y2)] = sum over the configurations of all other sites of
+                          Psi[.. x1 .. x2 ..] * conj(Psi[.. y1 .. y2 ..]) *)
+Theorem rdm2_ptrace left p1 d1 (t1 : T3 R) mid p2 d2 (t2 : T3 R) right x1 x2 y1 y2 :
+  lastdim d2 (kchain R right) = 1%nat ->
+  (x1 < p1)%nat -> (y1 < p1)%nat -> (x2 < p2)%nat -> (y2 < p2)%nat ->
+  rdm2 left (lastdim 1 (kchain R left)) p1 d1 t1 mid (lastdim d1 (kchain R mid)) p2 d2 t2 right x1 x2 y1 y2 =
+  sumcfg (kdims R left) (fun sl => sumcfg (kdims R mid) (fun sm => sumcfg (kdims R right) (fun sr =>
+    amp (kchain R (left ++ (p1, d1, t1) :: mid ++ (p2, d2, t2) :: right)) (sl ++ x1 :: sm ++ x2 :: sr) *
+    cj (amp (kchain R (left ++ (p1, d1, t1) :: mid ++ (p2, d2, t2) :: right)) (sl ++ y1 :: sm ++ y2 :: sr))))).
+Proof.
+  intros Hr Hx1 Hy1 Hx2 Hy2.
+  rewrite (rdm2_dense_w R left p1 d1 t1 mid p2 d2 t2 right x1 x2 y1 y2 Hr Hx1 Hy1 Hx2 Hy2).
+  assert (HK : kall R left p1 d1 t1 mid p2 d2 t2 right = left ++ (p1, d1, t1) :: mid ++ (p2, d2, t2) :: right).
+  { unfold kall. rewrite <- app_assoc. reflexivity. }
+  rewrite HK. set (K := kchain R (left ++ (p1, d1, t1) :: mid ++ (p2, d2, t2) :: right)).
+  assert (HP : kdims R (left ++ (p1, d1, t1) :: mid ++ (p2, d2, t2) :: right) =
+               kdims R left ++ p1 :: kdims R mid ++ p2 :: kdims R right).
+  { unfold kdims. rewrite map_app. cbn [map fst]. rewrite map_app. reflexivity. }
+  assert (HW : map wof (rdm2_sand R left p1 d1 t1 mid p2 d2 t2 right x1 x2 y1 y2) =
+               ids (kdims R left) ++ uw y1 x1 :: ids (kdims R mid) ++ uw y2 x2 :: ids (kdims R right)).
+  { unfold rdm2_sand. rewrite <- app_assoc. cbn [app]. rewrite map_app. cbn [map]. rewrite map_app. cbn [map].
+    rewrite !wof_self. reflexivity. }
+  rewrite HP, <- cfg2_sumcfg.
+  rewrite (cfg2_ext' _ _ (fun s' s => pw (ids (kdims R left) ++ uw y1 x1 :: ids (kdims R mid) ++ uw y2 x2 :: ids (kdims R right)) s' s *
+                                      (amp K s * cj (amp K s')))).
+  - apply cfg2_two_units; assumption.
+  - intros s' s. rewrite prodop_pw, HW. ring.
+Qed.
+
+End Collapse.
+
+(* ============================================================== occupations *)
+(* e_occupations / ph_occupations are `expectations` of the number-operator MPOs with the default bra conj(Psi).
+   ASSUMPTION about such an MPO (tied by exact correspondence on the MPOs Renormalizer builds): its dense matrix
+   is diagonal, opamp O s' s = delta(s',s) * n(s).  Then the expectation value is  sum_s n(s) |Psi(s)|^2. *)
+Section Occupation.
+Variable R : CRing.
+Add Ring RR6 : (rth R).
+Infix "*" := (rmul R).
+Notation cj := (rcj R).
+Notation ksite := (ksite R).
+
+(* the sandwich  conj(Psi) | O | Psi  for a ket chain and an operator chain [(right bond dim, tensor)] *)
+Fixpoint osand (ks : list ksite) (os : list (nat * T4 R)) : list (site3 R) :=
+  match ks, os with
+  | (p, d, t) :: ks', (b, o) :: os' => mk3 p d b d (cj3 t) o t :: osand ks' os'
+  | _, _ => []
+  end.
+
+Lemma osand_chains ks : forall os, length os = length ks ->
+  bras3 (osand ks os) = cjchain R ks /\ kets3 (osand ks os) = kchain R ks /\ ops3 (osand ks os) = os /\
+  map (@p3 R) (osand ks os) = kdims R ks.
+Proof.
+  induction ks as [|[[p d] t] ks IH]; intros os Hl; destruct os as [|[b o] os]; try discriminate.
+  - repeat split; reflexivity.
+  - cbn in Hl. destruct (IH os) as [H1 [H2 [H3 H4]]]; [congruence|].
+    cbn [osand bras3 kets3 ops3 map cjchain kchain kdims fst snd p3 a3 b3 c3 bra3 ket3 op3].
+    fold (bras3 (osand ks os)). fold (kets3 (osand ks os)). fold (ops3 (osand ks os)).
+    fold (cjchain R ks). fold (kchain R ks). fold (kdims R ks).
+    rewrite H1, H2, H3, H4. repeat split; reflexivity.
+Qed.
+
+Theorem occupation_dense (ks : list ksite) (os : list (nat * T4 R)) (n : list nat -> R) :
+  length os = length ks -> ks <> [] ->
+  lastdim 1 (kchain R ks) = 1%nat -> lastdim 1 os = 1%nat ->
+  (forall s' s, Forall2 lt s' (kdims R ks) -> Forall2 lt s (kdims R ks) -> opamp os s' s = deltas R s' s * n s) ->
+  expectation3 (osand ks os) = sumcfg (kdims R ks) (fun s => n s * (cj (amp (kchain R ks) s) * amp (kchain R ks) s)).
+Proof.
+  intros Hl Hne HK HO Hdiag. destruct (osand_chains ks os Hl) as [H1 [H2 [H3 H4]]].
+  rewrite expectation3_dense.
+  - unfold dense3. rewrite H1, H2, H3, H4. apply sumcfg_ext_bound. intros s' Hs'.
+    rewrite <- (sumcfg_deltas R (kdims R ks) s' (fun s => n s * (cj (amp (kchain R ks) s') * amp (kchain R ks) s)) Hs').
+    apply sumcfg_ext_bound. intros s Hs. rewrite (Hdiag s' s Hs' Hs). unfold amp at 1. rewrite chain3_cj. unfold amp. ring.
+  - destruct ks as [|[[p d] t] ks']; [congruence|]. destruct os as [|[b o] os']; discriminate.
+  - unfold lastA3. rewrite H1, lastdim_cj. exact HK.
+  - unfold lastB3. rewrite H3. exact HO.
+  - unfold lastC3. rewrite H2. exact HK.
+Qed.
+
+End Occupation.
+
+(* ============================================================== RDMs of rank-4 (MpDm / purified) states *)
+Section Rdm4.
+Variable R : CRing.
+Add Ring RR7 : (rth R).
+Infix "+" := (radd R).
+Infix "*" := (rmul R).
+Notation cj := (rcj R).
+Notation dl := (dl R).
+Notation ksite4 := (ksite4 R).
+
+Definition kchain4 (ks : list ksite4) : list (nat * T4 R) := map (fun x => (rdim4 x, snd x)) ks.
+Definition cjchain4 (ks : list ksite4) : list (nat * T4 R) := map (fun x => (rdim4 x, cj4 (snd x))) ks.
+Definition idchain4 (ks : list ksite4) : list (nat * T4 R) := map (fun _ => (1%nat, @id_op R)) ks.
+Definition kdims4 (ks : list ksite4) : list nat := map (fun x => fst (fst (fst x))) ks.
+Definition qdims4 (ks : list ksite4) : list nat := map (fun x => snd (fst (fst x))) ks.
+
+Lemma bras4_self ks : bras4 (self_sand4 ks) = cjchain4 ks.
+Proof. unfold bras4, self_sand4, cjchain4. rewrite map_map. apply map_ext. intros [[[p q] d] t]. reflexivity. Qed.
+Lemma kets4_self ks : kets4 (self_sand4 ks) = kchain4 ks.
+Proof. unfold kets4, self_sand4, kchain4. rewrite map_map. apply map_ext. intros [[[p q] d] t]. reflexivity. Qed.
+Lemma ops4_self ks : ops4 (self_sand4 ks) = idchain4 ks.
+Proof. unfold ops4, self_sand4, idchain4. rewrite map_map. apply map_ext. intros [[[p q] d] t]. reflexivity. Qed.
+Lemma p4_self ks : map (@p4 R) (self_sand4 ks) = kdims4 ks.
+Proof. unfold self_sand4, kdims4. rewrite map_map. apply map_ext. intros [[[p q] d] t]. reflexivity. Qed.
+Lemma q4_self ks : map (@q4 R) (self_sand4 ks) = qdims4 ks.
+Proof. unfold self_sand4, qdims4. rewrite map_map. apply map_ext. intros [[[p q] d] t]. reflexivity. Qed.
+
+Lemma lastdim_cj4 ks : forall d0, lastdim d0 (cjchain4 ks) = lastdim d0 (kchain4 ks).
+Proof. induction ks as [|x ks IH]; intros d0; [reflexivity|]. cbn [cjchain4 kchain4 map]. rewrite !lastdim_cons. apply IH. Qed.
+Lemma lastdim_id4 ks : lastdim 1 (idchain4 ks) = 1%nat.
+Proof. induction ks as [|x ks IH]; [reflexivity|]. cbn [idchain4 map]. rewrite lastdim_cons. exact IH. Qed.
+
+Lemma lastA_self4 ks d0 : lastA R d0 (self_sand4 ks) = lastdim d0 (kchain4 ks).
+Proof. unfold lastA. rewrite bras4_self. apply lastdim_cj4. Qed.
+Lemma lastC_self4 ks d0 : lastC R d0 (self_sand4 ks) = lastdim d0 (kchain4 ks).
+Proof. unfold lastC. rewrite kets4_self. reflexivity. Qed.
+Lemma lastB_self4 ks : lastB R 1 (self_sand4 ks) = 1%nat.
+Proof. unfold lastB. rewrite ops4_self. apply lastdim_id4. Qed.
+
+Lemma chain4_cj ks : forall su sd l r, chain4 (cjchain4 ks) su sd l r = cj (chain4 (kchain4 ks) su sd l r).
+Proof.
+  induction ks as [|x ks IH]; intros su sd l r; destruct su as [|pu su]; destruct sd as [|pd sd];
+    cbn [cjchain4 kchain4 map chain4]; try (symmetry; apply rcj_0).
+  - symmetry. apply cj_dl.
+  - fold (cjchain4 ks). fold (kchain4 ks). rewrite sumn_cj. apply sumn_ext'. intros m.
+    rewrite rcj_mul, IH. reflexivity.
+Qed.
+
+Definition usite4 (p q d : nat) (t : T4 R) (x' x : nat) : site4 R := mk4 p q d 1 d (cj4 t) (unit_op R x' x) t.
+
+Lemma envL4_app xs : forall ys da db dc (E : E3 R),
+  envL4 da db dc E (xs ++ ys) = envL4 (lastA R da xs) (lastB R db xs) (lastC R dc xs) (envL4 da db dc E xs) ys.
+Proof.
+  induction xs as [|s r IH]; intros ys da db dc E; [reflexivity|].
+  cbn [app envL4]. rewrite IH. reflexivity.
+Qed.
+
+Lemma lcomp4_step dL (L : E3 R) p q d (t : T4 R) x' x r' r : (x' < p)%nat -> (x < p)%nat ->
+  lcomp4 dL (fun a c => L a 0%nat c) q t x' x r' r = stepL4 dL 1 dL L (usite4 p q d t x' x) r' 0%nat r.
+Proof.
+  intros Hx' Hx. unfold lcomp4, stepL4, cos_L4, sum3. cbn [usite4 p4 q4 bra4 op4 ket4].
+  apply sumn_ext'. intros a. rewrite sumn_1. apply sumn_ext'. intros c.
+  rewrite <- (sumn_delta_l R p x' (fun d0 => sumn q (fun l => L a 0%nat c * cj (t a d0 l r') * t c x l r)) Hx').
+  apply sumn_ext'. intros d0.
+  rewrite <- (sumn_delta_l R p x (fun e => sumn q (fun l => L a 0%nat c * cj (t a d0 l r') * t c e l r)) Hx).
+  rewrite <- sumn_scale_l. apply sumn_ext'. intros e. rewrite <- !sumn_scale_l. apply sumn_ext'. intros l.
+  unfold unit_op, cj4. ring.
+Qed.
+
+Lemma transfer4_step dprev (T : nat -> nat -> R) p q d (t : T4 R) l' l :
+  transfer4 dprev T (p, q, d, t) l' l = stepL4 dprev 1 dprev (emb R T) (self_site4 (p, q, d, t)) l' 0%nat l.
+Proof.
+  unfold transfer4, stepL4, cos_L4, sum3. cbn [self_site4 p4 q4 bra4 op4 ket4].
+  apply sumn_ext'. intros a. rewrite sumn_1. apply sumn_ext'. intros c.
+  apply sumn_ext. intros d0 Hd0.
+  rewrite <- (sumn_delta_r R p d0 (fun e => sumn q (fun anc => T a c * cj (t a d0 anc l') * t c e anc l)) Hd0).
+  apply sumn_ext'. intros e. rewrite <- sumn_scale_l. apply sumn_ext'. intros anc.
+  unfold emb, id_op, cj4, EnvProofs.dl. destruct (Nat.eqb d0 e); ring.
+Qed.
+
+Lemma rcomp4_step d (Rt : E3 R) p q (t : T4 R) q' qq l' l : (q' < p)%nat -> (qq < p)%nat ->
+  rcomp4 d (fun r' r => Rt r' 0%nat r) q t q' qq l' l = stepR4 (usite4 p q d t q' qq) Rt l' 0%nat l.
+Proof.
+  intros Hq' Hq. unfold rcomp4, stepR4, cos_R4, sum3. cbn [usite4 p4 q4 a4 b4 c4 bra4 op4 ket4].
+  apply sumn_ext'. intros a. rewrite sumn_1. apply sumn_ext'. intros c.
+  rewrite <- (sumn_delta_l R p q' (fun d0 => sumn q (fun anc => cj (t l' d0 anc a) * Rt a 0%nat c * t l qq anc c)) Hq').
+  apply sumn_ext'. intros d0.
+  rewrite <- (sumn_delta_l R p qq (fun e => sumn q (fun anc => cj (t l' d0 anc a) * Rt a 0%nat c * t l e anc c)) Hq).
+  rewrite <- sumn_scale_l. apply sumn_ext'. intros e. rewrite <- !sumn_scale_l. apply sumn_ext'. intros anc.
+  unfold unit_op, cj4. ring.
+Qed.
+
+Lemma transfers4_env (mid : list ksite4) : forall dprev (T : nat -> nat -> R) (E : E3 R) l' l,
+  (forall a c, (a < dprev)%nat -> (c < dprev)%nat -> E a 0%nat c = T a c) ->
+  (l' < lastdim dprev (kchain4 mid))%nat -> (l < lastdim dprev (kchain4 mid))%nat ->
+  transfers4 dprev T mid l' l = envL4 dprev 1 dprev E (self_sand4 mid) l' 0%nat l.
+Proof.
+  induction mid as [|[[[p q] d] t] r IH]; intros dprev T E l' l H Hl' Hl.
+  - cbn [transfers4 self_sand4 map envL4]. symmetry. apply H; assumption.
+  - cbn [transfers4 self_sand4 map envL4 rdim4 fst snd]. fold (self_sand4 r). cbn [self_site4 a4 b4 c4].
+    change (mk4 p q d 1 d (cj4 t) id_op t) with (self_site4 (p, q, d, t)).
+    apply IH.
+    + intros a c Ha Hc. rewrite transfer4_step. apply stepL4_ext. intros a0 b0 c0 Ha0 Hb0 Hc0.
+      replace b0 with 0%nat by lia. unfold emb. apply H; assumption.
+    + exact Hl'.
+    + exact Hl.
+Qed.
+
+(* the sandwiches  conj(rho) | 1 .. |y><x| .. 1 | rho  *)
+Definition rdm1_sand4 (left : list ksite4) p q d (t : T4 R) (right : list ksite4) (x y : nat) : list (site4 R) :=
+  self_sand4 left ++ usite4 p q d t y x :: self_sand4 right.
+Definition rdm2_sand4 (left : list ksite4) p1 q1 d1 (t1 : T4 R) (mid : list ksite4) p2 q2 d2 (t2 : T4 R)
+           (right : list ksite4) (x1 x2 y1 y2 : nat) : list (site4 R) :=
+  (self_sand4 left ++ usite4 p1 q1 d1 t1 y1 x1 :: self_sand4 mid) ++ usite4 p2 q2 d2 t2 y2 x2 :: self_sand4 right.
+
+Lemma rdm1_4_dense left p q d (t : T4 R) right x y :
+  lastdim d (kchain4 right) = 1%nat -> (x < p)%nat -> (y < p)%nat ->
+  rdm1_4 left (lastdim 1 (kchain4 left)) p q d t right x y = dense4 R (rdm1_sand4 left p q d t right x y).
+Proof.
+  intros Hr Hx Hy. unfold rdm1_sand4.
+  set (xs := self_sand4 left ++ [usite4 p q d t y x]). set (ys := self_sand4 right).
+  replace (self_sand4 left ++ usite4 p q d t y x :: ys) with (xs ++ ys) by (unfold xs; rewrite <- app_assoc; reflexivity).
+  set (dL := lastdim 1 (kchain4 left)).
+  assert (HA : lastA R 1 xs = d). { unfold xs. rewrite lastA_app. reflexivity. }
+  assert (HC : lastC R 1 xs = d). { unfold xs. rewrite lastC_app. reflexivity. }
+  assert (HB : lastB R 1 xs = 1%nat). { unfold xs. rewrite lastB_app. reflexivity. }
+  assert (HwA : lastA R 1 (xs ++ ys) = 1%nat). { rewrite lastA_app, HA. unfold ys. rewrite lastA_self4. exact Hr. }
+  assert (HwC : lastC R 1 (xs ++ ys) = 1%nat). { rewrite lastC_app, HC. unfold ys. rewrite lastC_self4. exact Hr. }
+  assert (HwB : lastB R 1 (xs ++ ys) = 1%nat). { rewrite lastB_app, HB. unfold ys. apply lastB_self4. }
+  assert (Hne : xs ++ ys <> []) by (unfold xs; destruct (self_sand4 left); discriminate).
+  rewrite <- (expectation4_dense R (xs ++ ys) Hne HwA HwB HwC).
+  rewrite <- (cut4_expectation R xs ys Hne HwA HwB HwC). rewrite HA, HB, HC.
+  unfold rdm1_4, rdm1_4g, dot3, sum3. fold dL.
+  apply sumn_ext'. intros r'. rewrite sumn_1. apply sumn_ext'. intros r.
+  unfold xs. rewrite envL4_app. cbn [envL4]. rewrite lastA_self4, lastB_self4, lastC_self4. fold dL.
+  rewrite <- (lcomp4_step dL (envL4 1 1 1 sentinel (self_sand4 left)) p q d t y x r' r Hy Hx).
+  unfold lcomp4. rewrite <- sumn_scale_r. apply sumn_ext'. intros a.
+  rewrite <- sumn_scale_r. apply sumn_ext'. intros c. rewrite <- sumn_scale_r. reflexivity.
+Qed.
+
+Lemma rdm2_4_dense left p1 q1 d1 (t1 : T4 R) mid p2 q2 d2 (t2 : T4 R) right x1 x2 y1 y2 :
+  lastdim d2 (kchain4 right) = 1%nat ->
+  (x1 < p1)%nat -> (y1 < p1)%nat -> (x2 < p2)%nat -> (y2 < p2)%nat ->
+  rdm2_4 left (lastdim 1 (kchain4 left)) p1 q1 d1 t1 mid (lastdim d1 (kchain4 mid)) p2 q2 d2 t2 right x1 x2 y1 y2 =
+  dense4 R (rdm2_sand4 left p1 q1 d1 t1 mid p2 q2 d2 t2 right x1 x2 y1 y2).
+Proof.
+  intros Hr Hx1 Hy1 Hx2 Hy2. unfold rdm2_sand4.
+  set (xs := self_sand4 left ++ usite4 p1 q1 d1 t1 y1 x1 :: self_sand4 mid).
+  set (ys := usite4 p2 q2 d2 t2 y2 x2 :: self_sand4 right).
+  set (dL := lastdim 1 (kchain4 left)). set (dm := lastdim d1 (kchain4 mid)).
+  assert (HA : lastA R 1 xs = dm).
+  { unfold xs. rewrite lastA_app, lastA_cons. cbn [usite4 a4]. apply lastA_self4. }
+  assert (HC : lastC R 1 xs = dm).
+  { unfold xs. rewrite lastC_app, lastC_cons. cbn [usite4 c4]. apply lastC_self4. }
+  assert (HB : lastB R 1 xs = 1%nat).
+  { unfold xs. rewrite lastB_app, lastB_cons. cbn [usite4 b4]. apply lastB_self4. }
+  assert (HwA : lastA R 1 (xs ++ ys) = 1%nat).
+  { rewrite lastA_app, HA. unfold ys. rewrite lastA_cons. cbn [usite4 a4]. rewrite lastA_self4. exact Hr. }
+  assert (HwC : lastC R 1 (xs ++ ys) = 1%nat).
+  { rewrite lastC_app, HC. unfold ys. rewrite lastC_cons. cbn [usite4 c4]. rewrite lastC_self4. exact Hr. }
+  assert (HwB : lastB R 1 (xs ++ ys) = 1%nat).
+  { rewrite lastB_app, HB. unfold ys. rewrite lastB_cons. cbn [usite4 b4]. apply lastB_self4. }
+  assert (Hne : xs ++ ys <> []) by (unfold ys; destruct xs; discriminate).
+  rewrite <- (expectation4_dense R (xs ++ ys) Hne HwA HwB HwC).
+  rewrite <- (cut4_expectation R xs ys Hne HwA HwB HwC). rewrite HA, HB, HC.
+  unfold rdm2_4, dot3, sum3. fold dL. fold dm.
+  apply sumn_ext. intros l' Hl'. rewrite sumn_1. apply sumn_ext. intros l Hl. f_equal.
+  - unfold xs. rewrite envL4_app. cbn [envL4]. cbn [usite4 a4 b4 c4].
+    change (mk4 p1 q1 d1 1 d1 (cj4 t1) (unit_op R y1 x1) t1) with (usite4 p1 q1 d1 t1 y1 x1).
+    rewrite lastA_self4, lastB_self4, lastC_self4. fold dL.
+    apply transfers4_env; try assumption.
+    intros a c _ _. symmetry. apply lcomp4_step; assumption.
+  - unfold ys. cbn [envR4]. apply rcomp4_step; assumption.
+Qed.
+
+(* weights of bond-dimension-one operator chains *)
+Definition wof4 (x : site4 R) : nat -> nat -> R := fun a b => op4 x 0%nat a b 0%nat.
+Lemma chain4_dim1_4 ss : (forall x, In x ss -> b4 x = 1%nat) -> forall s' s,
+  chain4 (ops4 ss) s' s 0 0 = pw R (map wof4 ss) s' s.
+Proof.
+  induction ss as [|x r IH]; intros H s' s; destruct s' as [|a s']; destruct s as [|b s]; try reflexivity.
+  cbn [ops4 map chain4 pw]. fold (ops4 r). rewrite (H x (or_introl eq_refl)), sumn_1.
+  rewrite IH by (intros y Hy; apply H; right; exact Hy). reflexivity.
+Qed.
+Lemma wof4_self ks : map wof4 (self_sand4 ks) = ids R (kdims4 ks).
+Proof. unfold self_sand4, ids, kdims4. rewrite !map_map. apply map_ext. intros [[[p q] d] t]. reflexivity. Qed.
+Lemma self_sand4_b4 (ks : list ksite4) (x : site4 R) : In x (self_sand4 ks) -> b4 x = 1%nat.
+Proof. unfold self_sand4. rewrite in_map_iff. intros [[[[p q] d] t] [<- _]]. reflexivity. Qed.
+
+(* dense4 of a sandwich conj(rho) | dim-one operators | rho as a weighted double sum *)
+Lemma dense4_weights (ss : list (site4 R)) (ks : list ksite4) :
+  bras4 ss = cjchain4 ks -> kets4 ss = kchain4 ks -> map (@p4 R) ss = kdims4 ks -> map (@q4 R) ss = qdims4 ks ->
+  (forall x, In x ss -> b4 x = 1%nat) ->
+  dense4 R ss = cfg2 R (kdims4 ks) (fun s' s => pw R (map wof4 ss) s' s *
+      sumcfg (qdims4 ks) (fun t => chain4 (kchain4 ks) s t 0 0 * cj (chain4 (kchain4 ks) s' t 0 0))).
+Proof.
+  intros Hb Hk Hp Hq Hd. unfold dense4. rewrite Hb, Hk, Hp, Hq, cfg2_sumcfg.
+  apply sumcfg_ext'. intros s'. apply sumcfg_ext'. intros s. rewrite <- sumcfg_scale_l.
+  apply sumcfg_ext'. intros t. rewrite chain4_cj, (chain4_dim1_4 ss Hd). ring.
+Qed.
+
+(* rdm1 (rank 4): calc_1site_rdm of an MpDm = trace over the other sites AND over all ancillas *)
+Theorem rdm1_4_ptrace left p q d (t : T4 R) right x y :
+  lastdim d (kchain4 right) = 1%nat -> (x < p)%nat -> (y < p)%nat ->
+  rdm1_4 left (lastdim 1 (kchain4 left)) p q d t right x y =
+  sumcfg (kdims4 left) (fun sl => sumcfg (kdims4 right) (fun sr =>
+    sumcfg (qdims4 (left ++ (p, q, d, t) :: right)) (fun anc =>
+      chain4 (kchain4 (left ++ (p, q, d, t) :: right)) (sl ++ x :: sr) anc 0 0 *
+      cj (chain4 (kchain4 (left ++ (p, q, d, t) :: right)) (sl ++ y :: sr) anc 0 0)))).
+Proof.
+  intros Hr Hx Hy. rewrite (rdm1_4_dense left p q d t right x y Hr Hx Hy).
+  rewrite (dense4_weights _ (left ++ (p, q, d, t) :: right)).
+  - assert (HP : kdims4 (left ++ (p, q, d, t) :: right) = kdims4 left ++ p :: kdims4 right).
+    { unfold kdims4. rewrite map_app. reflexivity. }
+    assert (HW : map wof4 (rdm1_sand4 left p q d t right x y) = ids R (kdims4 left) ++ uw R y x :: ids R (kdims4 right)).
+    { unfold rdm1_sand4. rewrite map_app. cbn [map]. rewrite !wof4_self. reflexivity. }
+    rewrite HP, HW. apply (cfg2_one_unit R (kdims4 left) p (kdims4 right) y x); assumption.
+  - unfold rdm1_sand4, bras4, cjchain4. pose proof (bras4_self left) as H1. pose proof (bras4_self right) as H2.
+    unfold bras4, cjchain4 in H1, H2. rewrite !map_app. cbn [map]. rewrite H1, H2. reflexivity.
+  - unfold rdm1_sand4, kets4, kchain4. pose proof (kets4_self left) as H1. pose proof (kets4_self right) as H2.
+    unfold kets4, kchain4 in H1, H2. rewrite !map_app. cbn [map]. rewrite H1, H2. reflexivity.
+  - unfold rdm1_sand4, kdims4. pose proof (p4_self left) as H1. pose proof (p4_self right) as H2.
+    unfold kdims4 in H1, H2. rewrite !map_app. cbn [map]. rewrite H1, H2. reflexivity.
+  - unfold rdm1_sand4, qdims4. pose proof (q4_self left) as H1. pose proof (q4_self right) as H2.
+    unfold qdims4 in H1, H2. rewrite !map_app. cbn [map]. rewrite H1, H2. reflexivity.
+  - intros s. unfold rdm1_sand4. rewrite in_app_iff. cbn [In]. intros [H|[<-|H]]; try reflexivity; apply (self_sand4_b4 _ _ H).
+Qed.
+
+Theorem rdm2_4_ptrace left p1 q1 d1 (t1 : T4 R) mid p2 q2 d2 (t2 : T4 R) right x1 x2 y1 y2 :
+  lastdim d2 (kchain4 right) = 1%nat ->
+  (x1 < p1)%nat -> (y1 < p1)%nat -> (x2 < p2)%nat -> (y2 < p2)%nat ->
+  rdm2_4 left (lastdim 1 (kchain4 left)) p1 q1 d1 t1 mid (lastdim d1 (kchain4 mid)) p2 q2 d2 t2 right x1 x2 y1 y2 =
+  sumcfg (kdims4 left) (fun sl => sumcfg (kdims4 mid) (fun sm => sumcfg (kdims4 right) (fun sr =>
+    sumcfg (qdims4 (left ++ (p1, q1, d1, t1) :: mid ++ (p2, q2, d2, t2) :: right)) (fun anc =>
+      chain4 (kchain4 (left ++ (p1, q1, d1, t1) :: mid ++ (p2, q2, d2, t2) :: right)) (sl ++ x1 :: sm ++ x2 :: sr) anc 0 0 *
+      cj (chain4 (kchain4 (left ++ (p1, q1, d1, t1) :: mid ++ (p2, q2, d2, t2) :: right)) (sl ++ y1 :: sm ++ y2 :: sr) anc 0 0))))).
+Proof.
+  intros Hr Hx1 Hy1 Hx2 Hy2. rewrite (rdm2_4_dense left p1 q1 d1 t1 mid p2 q2 d2 t2 right x1 x2 y1 y2 Hr Hx1 Hy1 Hx2 Hy2).
+  assert (HS : rdm2_sand4 left p1 q1 d1 t1 mid p2 q2 d2 t2 right x1 x2 y1 y2 =
+               self_sand4 left ++ usite4 p1 q1 d1 t1 y1 x1 :: self_sand4 mid ++ usite4 p2 q2 d2 t2 y2 x2 :: self_sand4 right).
+  { unfold rdm2_sand4. rewrite <- app_assoc. reflexivity. }
+  rewrite HS.
+  rewrite (dense4_weights _ (left ++ (p1, q1, d1, t1) :: mid ++ (p2, q2, d2, t2) :: right)).
+  - assert (HP : kdims4 (left ++ (p1, q1, d1, t1) :: mid ++ (p2, q2, d2, t2) :: right) =
+                 kdims4 left ++ p1 :: kdims4 mid ++ p2 :: kdims4 right).
+    { unfold kdims4. rewrite map_app. cbn [map]. rewrite map_app. reflexivity. }
+    rewrite HP. rewrite map_app. cbn [map]. rewrite map_app. cbn [map]. rewrite !wof4_self.
+    apply (cfg2_two_units R (kdims4 left) p1 (kdims4 mid) p2 (kdims4 right) y1 x1 y2 x2); assumption.
+  - unfold bras4, cjchain4. pose proof (bras4_self left) as H1. pose proof (bras4_self mid) as H2. pose proof (bras4_self right) as H3.
+    unfold bras4, cjchain4 in H1, H2, H3. rewrite !map_app. cbn [map]. rewrite !map_app. cbn [map]. rewrite H1, H2, H3. reflexivity.
+  - unfold kets4, kchain4. pose proof (kets4_self left) as H1. pose proof (kets4_self mid) as H2. pose proof (kets4_self right) as H3.
+    unfold kets4, kchain4 in H1, H2, H3. rewrite !map_app. cbn [map]. rewrite !map_app. cbn [map]. rewrite H1, H2, H3. reflexivity.
+  - unfold kdims4. pose proof (p4_self left) as H1. pose proof (p4_self mid) as H2. pose proof (p4_self right) as H3.
+    unfold kdims4 in H1, H2, H3. rewrite !map_app. cbn [map]. rewrite !map_app. cbn [map]. rewrite H1, H2, H3. reflexivity.
+  - unfold qdims4. pose proof (q4_self left) as H1. pose proof (q4_self mid) as H2. pose proof (q4_self right) as H3.
+    unfold qdims4 in H1, H2, H3. rewrite !map_app. cbn [map]. rewrite !map_app. cbn [map]. rewrite H1, H2, H3. reflexivity.
+  - intros s. rewrite in_app_iff. cbn [In]. rewrite in_app_iff. cbn [In].
+    intros [H|[<-|[H|[<-|H]]]]; try reflexivity; apply (self_sand4_b4 _ _ H).
+Qed.
+
+End Rdm4.
+
+Section Rdm4Tab.
+Variable R : CRing.
+Add Ring RR8 : (rth R).
+Infix "*" := (rmul R).
+Notation ksite4 := (ksite4 R).
+
+Lemma ldim_of4_kchain (lft : list ksite4) d0 : ldim_of4 lft d0 = lastdim d0 (kchain4 R lft).
+Proof. unfold ldim_of4, lastdim, kchain4. revert d0. induction lft as [|x l IH]; intros d0; [reflexivity|]. cbn [map fold_left fst]. apply IH. Qed.
+
+Lemma rdm1_4g_ext (L L' Rt Rt' : E3 R) dL q d (t : T4 R) x y :
+  (forall a c, (a < dL)%nat -> (c < dL)%nat -> L a 0%nat c = L' a 0%nat c) ->
+  (forall r' r, (r' < d)%nat -> (r < d)%nat -> Rt r' 0%nat r = Rt' r' 0%nat r) ->
+  rdm1_4g L Rt dL q d t x y = rdm1_4g L' Rt' dL q d t x y.
+Proof.
+  intros HL HR. unfold rdm1_4g. apply sumn_ext. intros r' Hr'. apply sumn_ext. intros r Hr.
+  apply sumn_ext. intros a Ha. apply sumn_ext. intros c Hc. apply sumn_ext'. intros l.
+  rewrite (HL a c Ha Hc), (HR r' r Hr' Hr). reflexivity.
+Qed.
+
+Theorem rdm1t_4_eq left p q d (t : T4 R) right x y :
+  lastdim d (kchain4 R right) = 1%nat ->
+  rdm1t_4 left (ldim_of4 left 1) p q d t right x y = rdm1_4 left (lastdim 1 (kchain4 R left)) p q d t right x y.
+Proof.
+  intros Hr. unfold rdm1t_4, rdm1_4. rewrite ldim_of4_kchain. apply rdm1_4g_ext.
+  - intros a c Ha Hc. apply (envL4t_eq R (self_sand4 left) 1 1 1 sentinel sentinel a 0%nat c); try reflexivity.
+    + rewrite lastA_self4. exact Ha.
+    + rewrite lastB_self4. lia.
+    + rewrite lastC_self4. exact Hc.
+  - intros r' r Hr' Hr0. apply (envR4t_eq R (self_sand4 right) d 1 d sentinel sentinel r' 0%nat r); try assumption; try lia; reflexivity.
+Qed.
+
+Lemma transfer4_ext dprev (T T' : nat -> nat -> R) k l' l :
+  (forall a c, (a < dprev)%nat -> (c < dprev)%nat -> T a c = T' a c) -> transfer4 dprev T k l' l = transfer4 dprev T' k l' l.
+Proof.
+  intros H. destruct k as [[[p q] d] t]. unfold transfer4. apply sumn_ext. intros a Ha. apply sumn_ext. intros c Hc.
+  apply sumn_ext'. intros s. apply sumn_ext'. intros anc. rewrite (H a c Ha Hc). reflexivity.
+Qed.
+
+Lemma transfers4_t_eq (mid : list ksite4) : forall dprev (T T' : nat -> nat -> R) l' l,
+  (forall a c, (a < dprev)%nat -> (c < dprev)%nat -> T a c = T' a c) ->
+  (l' < lastdim dprev (kchain4 R mid))%nat -> (l < lastdim dprev (kchain4 R mid))%nat ->
+  transfers4_t dprev T mid l' l = transfers4 dprev T' mid l' l.
+Proof.
+  induction mid as [|k r IH]; intros dprev T T' l' l H Hl' Hl; cbn [transfers4_t transfers4].
+  - apply H; assumption.
+  - apply IH; try assumption. intros a c Ha Hc. rewrite tab2_in by assumption. apply transfer4_ext. exact H.
+Qed.
+
+Theorem rdm2t_4_eq left p1 q1 d1 (t1 : T4 R) mid p2 q2 d2 (t2 : T4 R) right x1 x2 y1 y2 :
+  lastdim d2 (kchain4 R right) = 1%nat ->
+  rdm2t_4 left (ldim_of4 left 1) p1 q1 d1 t1 mid (ldim_of4 mid d1) p2 q2 d2 t2 right x1 x2 y1 y2 =
+  rdm2_4 left (lastdim 1 (kchain4 R left)) p1 q1 d1 t1 mid (lastdim d1 (kchain4 R mid)) p2 q2 d2 t2 right x1 x2 y1 y2.
+Proof.
+  intros Hr. unfold rdm2t_4, rdm2_4. rewrite !ldim_of4_kchain.
+  apply sumn_ext. intros l' Hl'. apply sumn_ext. intros l Hl. f_equal.
+  - apply transfers4_t_eq; try assumption. intros a c Ha Hc. rewrite tab2_in by assumption.
+    unfold lcomp4. apply sumn_ext. intros a0 Ha0. apply sumn_ext. intros c0 Hc0. apply sumn_ext'. intros anc.
+    rewrite (envL4t_eq R (self_sand4 left) 1 1 1 sentinel sentinel a0 0%nat c0); try reflexivity.
+    + rewrite lastA_self4. exact Ha0.
+    + rewrite lastB_self4. lia.
+    + rewrite lastC_self4. exact Hc0.
+  - rewrite tab2_in by assumption. unfold rcomp4. apply sumn_ext. intros r' Hr'. apply sumn_ext. intros r0 Hr0.
+    apply sumn_ext'. intros anc.
+    rewrite (envR4t_eq R (self_sand4 right) d2 1 d2 sentinel sentinel r' 0%nat r0); try assumption; try lia; reflexivity.
+Qed.
+
+End Rdm4Tab.
+
+(* ============================================================== the fast path for MpDm (rank-4 sites) *)
+Section FastInst4Proofs.
+Variable R : CRing.
+Add Ring RR9 : (rth R).
+Variables ps qs : list nat.
+Variables bra ket : list (nat * T4 R).
+Notation opchain := (opchain R).
+Notation lastdr := (lastdr R).
+Notation wf_op := (wf_op R).
+
+Notation OpSite := (OpSite R).
+Notation EnvD := (EnvD R).
+Notation site_at := (site_at4 R ps qs bra ket).
+Notation sites_from := (sites_from4 R ps qs bra ket).
+Notation env_stepo := (env_stepo4 R ps qs bra ket).
+Notation env_init := (env_init R).
+Notation env_dot := (env_dot R).
+Notation foldL' := (foldL EnvD OpSite env_stepo).
+Notation foldR' := (foldR EnvD OpSite env_stepo).
+
+Definition wf_state4 (n : nat) : Prop := (1 <= n)%nat /\ rdimc4 R bra (n - 1) = 1%nat /\ rdimc4 R ket (n - 1) = 1%nat.
+
+Lemma lastA4_sites objs : forall i da, lastA R da (sites_from i objs) =
+  match length objs with 0%nat => da | S l => rdimc4 R bra (i + l) end.
+Proof.
+  induction objs as [|o r IH]; intros i da; [reflexivity|].
+  cbn [sites_from4 length]. unfold lastA. cbn [bras4 map]. rewrite lastdim_cons. fold (bras4 (sites_from (S i) r)).
+  fold (lastA R (a4 (site_at i o)) (sites_from (S i) r)). rewrite IH.
+  destruct (length r) as [|l]; cbn [site_at4 a4]; [rewrite Nat.add_0_r; reflexivity|].
+  f_equal. lia.
+Qed.
+
+Lemma lastC4_sites objs : forall i dc, lastC R dc (sites_from i objs) =
+  match length objs with 0%nat => dc | S l => rdimc4 R ket (i + l) end.
+Proof.
+  induction objs as [|o r IH]; intros i dc; [reflexivity|].
+  cbn [sites_from4 length]. unfold lastC. cbn [kets4 map]. rewrite lastdim_cons. fold (kets4 (sites_from (S i) r)).
+  fold (lastC R (c4 (site_at i o)) (sites_from (S i) r)). rewrite IH.
+  destruct (length r) as [|l]; cbn [site_at4 c4]; [rewrite Nat.add_0_r; reflexivity|].
+  f_equal. lia.
+Qed.
+
+Lemma lastB4_sites objs : forall i db, lastB R db (sites_from i objs) = lastdr db objs.
+Proof.
+  induction objs as [|o r IH]; intros i db; [reflexivity|].
+  cbn [sites_from4]. unfold lastB. cbn [ops4 map]. rewrite lastdim_cons. fold (ops4 (sites_from (S i) r)).
+  fold (lastB R (b4 (site_at i o)) (sites_from (S i) r)). rewrite IH. reflexivity.
+Qed.
+
+Lemma sites_from4_app x : forall i y, sites_from i (x ++ y) = sites_from i x ++ sites_from (i + length x) y.
+Proof.
+  induction x as [|o x IH]; intros i y; cbn [app sites_from4 length].
+  - rewrite Nat.add_0_r. reflexivity.
+  - rewrite IH. replace (S i + length x)%nat with (i + S (length x))%nat by lia. reflexivity.
+Qed.
+
+Lemma foldL_envL4t objs : forall i da db dc T,
+  foldL' i objs (da, db, dc, T) =
+  (lastA R da (sites_from i objs), lastB R db (sites_from i objs), lastC R dc (sites_from i objs),
+   envL4t da db dc T (sites_from i objs)).
+Proof.
+  induction objs as [|o r IH]; intros i da db dc T; [reflexivity|].
+  cbn [foldL sites_from4 envL4t]. cbn [env_stepo4]. rewrite IH. reflexivity.
+Qed.
+
+Lemma foldR_envR4t objs : forall i D, opchain D objs -> objs <> [] ->
+  foldR' i objs env_init =
+  (ldimc4 R bra i, D, ldimc4 R ket i, envR4t (ldimc4 R bra i) D (ldimc4 R ket i) (sites_from i objs) sentinel).
+Proof.
+  induction objs as [|o r IH]; intros i D Hc Hne; [congruence|].
+  destruct Hc as [HD Hc]. cbn [foldR sites_from4 envR4t].
+  destruct r as [|o' r'].
+  - cbn [foldR sites_from4 envR4t]. unfold env_init. cbn [env_stepo4]. rewrite HD. reflexivity.
+  - rewrite (IH (S i) (snd (fst o)) Hc) by discriminate. cbn [env_stepo4]. rewrite HD. reflexivity.
+Qed.
+
+Lemma split_value_slow4 n objs k : wf_state4 n -> wf_op n objs -> (k <= n)%nat ->
+  split_value EnvD OpSite R env_stepo env_init env_dot k objs = expectation4t (sites_from 0 objs).
+Proof.
+  intros [Hn [HA HC]] [Hlen Hch] Hk. unfold split_value. unfold env_init at 1. rewrite foldL_envL4t.
+  set (xs := sites_from 0 (firstn k objs)).
+  set (ys := sites_from k (skipn k objs)).
+  assert (Hfl : length (firstn k objs) = k) by (apply firstn_length_le; lia).
+  assert (Hall : sites_from 0 objs = xs ++ ys).
+  { unfold xs, ys. rewrite <- (firstn_skipn k objs) at 1. rewrite sites_from4_app, Hfl. reflexivity. }
+  assert (HlA : lastA R 1 xs = ldimc4 R bra k).
+  { unfold xs. rewrite lastA4_sites, Hfl. destruct k; reflexivity. }
+  assert (HlC : lastC R 1 xs = ldimc4 R ket k).
+  { unfold xs. rewrite lastC4_sites, Hfl. destruct k; reflexivity. }
+  assert (HlB : lastB R 1 xs = lastdr 1 (firstn k objs)) by (unfold xs; apply lastB4_sites).
+  pose proof (opchain_split R objs 1 k Hch) as Hch2.
+  assert (HwA : lastA R 1 (xs ++ ys) = 1%nat).
+  { rewrite <- Hall, lastA4_sites, Hlen. destruct n; [lia|]. cbn [Nat.add]. replace (S n - 1)%nat with n in HA by lia. exact HA. }
+  assert (HwC : lastC R 1 (xs ++ ys) = 1%nat).
+  { rewrite <- Hall, lastC4_sites, Hlen. destruct n; [lia|]. cbn [Nat.add]. replace (S n - 1)%nat with n in HC by lia. exact HC. }
+  assert (HwB : lastB R 1 (xs ++ ys) = 1%nat).
+  { rewrite <- Hall, lastB4_sites. apply opchain_last. exact Hch. }
+  assert (Hne : xs ++ ys <> []).
+  { rewrite <- Hall. destruct objs; [cbn in Hlen; lia|discriminate]. }
+  rewrite expectation4t_eq, Hall. rewrite <- (cut4_expectation R xs ys Hne HwA HwB HwC).
+  destruct (skipn k objs) as [|o r] eqn:Esk.
+  - (* everything was contracted from the left: the right environment is the sentinel *)
+    cbn [foldR]. unfold env_init, env_dot. unfold ys. cbn [sites_from4 envR4].
+    unfold dot3. apply sum3_ext. intros a b c Ha Hb Hc.
+    rewrite (envL4t_eq R xs 1 1 1 sentinel sentinel a b c) by (try assumption; reflexivity). reflexivity.
+  - rewrite (foldR_envR4t (o :: r) k _ Hch2) by discriminate. unfold env_dot.
+    fold ys. unfold dot3. apply sum3_ext. intros a b c Ha Hb Hc.
+    rewrite (envL4t_eq R xs 1 1 1 sentinel sentinel a b c) by (try assumption; reflexivity).
+    rewrite <- HlA, <- HlC, <- HlB.
+    rewrite (envR4t_eq R ys _ _ _ sentinel sentinel a b c) by (try assumption; reflexivity). reflexivity.
+Qed.
+
+(* MAIN: the batched fast path returns exactly what the one-by-one path returns, for every operator list in
+   every order, assuming hash injectivity on the site matrices present *)
+Theorem expectations_fast4_eq_slow nmps (ms : list (hop OpSite)) :
+  wf_state4 nmps ->
+  (forall m, In m ms -> wf_op nmps (map snd m)) ->
+  (forall h o o', In (h, o) (concat ms) -> In (h, o') (concat ms) -> o = o') ->
+  expectations_fast4 R ps qs bra ket nmps ms = Some (expectations_slow4 R ps qs bra ket ms).
+Proof.
+  intros Hst Hops Hinj. unfold expectations_fast4, expectations_slow4.
+  destruct (expectations_fast_split EnvD OpSite R env_stepo env_init (op_dflt R) env_dot nmps ms) as [vs [-> Hall]].
+  - intros m Hm. destruct (Hops m Hm) as [Hl _]. rewrite map_length in Hl. exact Hl.
+  - exact Hinj.
+  - f_equal. apply (Forall2_eq_map _ _ _ _ Hall). intros v m Hm [k [Hk Hv]].
+    rewrite Hv. apply (split_value_slow4 nmps (map snd m) k Hst); [apply Hops; exact Hm|exact Hk].
+Qed.
+
+(* ... and each of these values is the dense bilinear form  x^T O psi *)
+Theorem expectations_slow4_dense nmps (ms : list (hop OpSite)) :
+  wf_state4 nmps -> (forall m, In m ms -> wf_op nmps (map snd m)) ->
+  expectations_slow4 R ps qs bra ket ms = map (fun m => dense4 R (sites_from 0 (map snd m))) ms.
+Proof.
+  intros [Hn [HA HC]] Hops. unfold expectations_slow4. apply map_ext_in. intros m Hm.
+  destruct (Hops m Hm) as [Hlen Hch]. rewrite expectation4t_eq. apply expectation4_dense.
+  - destruct (map snd m); [cbn in Hlen; lia|discriminate].
+  - rewrite lastA4_sites, Hlen. destruct nmps as [|n']; [lia|]. cbn [Nat.add]. replace (S n' - 1)%nat with n' in HA by lia. exact HA.
+  - rewrite lastB4_sites. apply opchain_last. exact Hch.
+  - rewrite lastC4_sites, Hlen. destruct nmps as [|n']; [lia|]. cbn [Nat.add]. replace (S n' - 1)%nat with n' in HC by lia. exact HC.
+Qed.
+
+End FastInst4Proofs.
+
+(* ============================================================== bond singular values and the dense Gram matrix *)
+(* Input of calc_bond_entropy: after the lossless canonical sweep the state at a cut reads
+       Psi(sl, sr) = sum_a U(sl,a) * sigma_a * V(a,sr),   U^+ U = 1 (left-orthonormal sites),  V V^+ = 1,
+   sigma = the singular values that `compress(ret_s=True)` records.  Then the dense Gram (reduced density) matrix
+   of the left block  G(sl,sl') = sum_sr Psi(sl,sr) conj Psi(sl',sr)  -- a function of the dense state only, hence
+   gauge independent -- has the spectral decomposition  G = U diag(sigma conj sigma) U^+ : every sigma_a conj sigma_a is an
+   eigenvalue of G with eigenvector U(.,a), and G has no other non-zero part.  (That the spectrum of a matrix is
+   unique -- so that the sigma_a are *determined* by G -- is linear algebra that is not formalised: PARTIAL.) *)
+Section BondGram.
+Variable R : CRing.
+Add Ring RR10 : (rth R).
+Infix "+" := (radd R).
+Infix "*" := (rmul R).
+Notation cj := (rcj R).
+Notation dl := (dl R).
+
+Variables Dl Dr : list nat.
+Variable D : nat.
+Variable U : list nat -> nat -> R.
+Variable V : nat -> list nat -> R.
+Variable sg : nat -> R.
+
+Definition psi_cut (sl sr : list nat) : R := sumn D (fun a => U sl a * sg a * V a sr).
+Definition gram (psi : list nat -> list nat -> R) (sl sl' : list nat) : R :=
+  sumcfg Dr (fun sr => psi sl sr * cj (psi sl' sr)).
+
+Hypothesis isoL : forall a a', (a < D)%nat -> (a' < D)%nat -> sumcfg Dl (fun sl => cj (U sl a) * U sl a') = dl a a'.
+Hypothesis isoR : forall a a', (a < D)%nat -> (a' < D)%nat -> sumcfg Dr (fun sr => V a sr * cj (V a' sr)) = dl a a'.
+
+Theorem gram_decomp sl sl' :
+  gram psi_cut sl sl' = sumn D (fun a => U sl a * (sg a * cj (sg a)) * cj (U sl' a)).
+Proof.
+  unfold gram, psi_cut.
+  transitivity (sumcfg Dr (fun sr => sumn D (fun a => sumn D (fun a' =>
+     (U sl a * sg a * cj (U sl' a') * cj (sg a')) * (V a sr * cj (V a' sr)))))).
+  { apply sumcfg_ext'. intros sr. rewrite sumn_cj, sumn_mul. apply sumn_ext'. intros a. apply sumn_ext'. intros a'.
+    rewrite !rcj_mul. ring. }
+  rewrite <- (sumn_sumcfg_exchange R Dr D (fun a sr => sumn D (fun a' =>
+     (U sl a * sg a * cj (U sl' a') * cj (sg a')) * (V a sr * cj (V a' sr))))).
+  apply sumn_ext. intros a Ha.
+  rewrite <- (sumn_sumcfg_exchange R Dr D (fun a' sr => (U sl a * sg a * cj (U sl' a') * cj (sg a')) * (V a sr * cj (V a' sr)))).
+  transitivity (U sl a * sg a * cj (U sl' a) * cj (sg a)); [|ring].
+  rewrite <- (sumn_delta_r R D a (fun a' => U sl a * sg a * cj (U sl' a') * cj (sg a')) Ha).
+  apply sumn_ext. intros a' Ha'. rewrite sumcfg_scale_l, (isoR a a' Ha Ha'). ring.
+Qed.
+
+Theorem gram_eigen sl a : (a < D)%nat ->
+  sumcfg Dl (fun sl' => gram psi_cut sl sl' * U sl' a) = (sg a * cj (sg a)) * U sl a.
+Proof.
+  intros Ha.
+  transitivity (sumcfg Dl (fun sl' => sumn D (fun a' => (U sl a' * (sg a' * cj (sg a'))) * (cj (U sl' a') * U sl' a)))).
+  { apply sumcfg_ext'. intros sl'. rewrite gram_decomp, <- sumn_scale_r. apply sumn_ext'. intros a'. ring. }
+  rewrite <- (sumn_sumcfg_exchange R Dl D (fun a' sl' => (U sl a' * (sg a' * cj (sg a'))) * (cj (U sl' a') * U sl' a))).
+  transitivity ((sg a * cj (sg a)) * U sl a); [|reflexivity].
+  rewrite <- (sumn_delta_l R D a (fun a' => (sg a' * cj (sg a')) * U sl a') Ha).
+  apply sumn_ext. intros a' Ha'. rewrite sumcfg_scale_l, (isoL a' a Ha' Ha). ring.
+Qed.
+
+End BondGram.
+
+(* the decomposition at a cut of a chain is what chain3_app provides: U = left block, sigma*V = right block *)
+Section BondGramChain.
+Variable R : CRing.
+Add Ring RR11 : (rth R).
+Infix "*" := (rmul R).
+Notation cj := (rcj R).
+
+Theorem bond_gram_chain (left right : list (nat * T3 R)) (Dl Dr : list nat) (V : nat -> list nat -> R) (sg : nat -> R) :
+  length Dl = length left ->
+  (forall a sr, (a < lastdim 1 left)%nat -> chain3 right sr a 0 = sg a * V a sr) ->
+  (forall a a', (a < lastdim 1 left)%nat -> (a' < lastdim 1 left)%nat ->
+      sumcfg Dl (fun sl => cj (chain3 left sl 0 a) * chain3 left sl 0 a') = dl R a a') ->
+  (forall a a', (a < lastdim 1 left)%nat -> (a' < lastdim 1 left)%nat ->
+      sumcfg Dr (fun sr => V a sr * cj (V a' sr)) = dl R a a') ->
+  forall sl a, Forall2 lt sl Dl -> (a < lastdim 1 left)%nat ->
+  sumcfg Dl (fun sl' => gram R Dr (fun x y => amp (left ++ right) (x ++ y)) sl sl' * chain3 left sl' 0 a) =
+  (sg a * cj (sg a)) * chain3 left sl 0 a.
+Proof.
+  intros HlD Hright HisoL HisoR sl a Hsl Ha.
+  rewrite <- (gram_eigen R Dl Dr (lastdim 1 left) (fun s m => chain3 left s 0 m) V sg HisoL HisoR sl a Ha).
+  apply sumcfg_ext_bound. intros sl' Hsl'. f_equal. unfold gram. apply sumcfg_ext'. intros sr.
+  assert (Hamp : forall s, Forall2 lt s Dl ->
+            amp (left ++ right) (s ++ sr) = psi_cut R (lastdim 1 left) (fun s m => chain3 left s 0 m) V sg s sr).
+  { intros s Hs. unfold amp, psi_cut.
+    rewrite (chain3_app R left right s sr 1 0 0) by (try lia; rewrite (Forall2_lt_length _ _ Hs); exact HlD).
+    apply sumn_ext. intros m Hm. rewrite (Hright m sr Hm). ring. }
+  rewrite (Hamp sl Hsl), (Hamp sl' Hsl'). reflexivity.
+Qed.
+
+End BondGramChain.
